@@ -60,6 +60,36 @@ NumKind(x, k) ==
   IF IsStr(x) THEN 0
   ELSE (IF x.kind = k THEN 1 ELSE 0) + NumKindKids(x.children, k) + SumArgs(x.largs, k) + SumArgs(x.defn, k)
 
+(* ---- block adjacency: how many lists, how many of them nested, how many items, how many blocks ---- *)
+\* (for the report of a rejected round trip: the verdict is Equiv alone).  Two lists that follow each
+\* other are separate nodes only because of the blank line between them; an emitter that loses it
+\* gives ONE list ("lists-merged": fewer LIST nodes, the same items) or hangs the second list into
+\* the last item of the first one ("list-nested": the same LIST nodes, more of them inside an item).
+RECURSIVE NumNested(_, _), NumNestedKids(_, _), NumNestedArgs(_, _)
+NumNestedKids(kids, inItem) == IF kids = <<>> THEN 0 ELSE NumNested(Head(kids), inItem) + NumNestedKids(Tail(kids), inItem)
+NumNestedArgs(ls, inItem) == IF ls = <<>> THEN 0 ELSE NumNestedKids(Head(ls), inItem) + NumNestedArgs(Tail(ls), inItem)
+NumNested(x, inItem) ==
+  IF IsStr(x) THEN 0
+  ELSE LET f == inItem \/ x.kind = "LIST_ITEM" IN
+       (IF x.kind = "LIST" /\ inItem THEN 1 ELSE 0) + NumNestedKids(x.children, f) + NumNestedArgs(x.largs, f) + NumNestedArgs(x.defn, f)
+RECURSIVE NumBlocks(_), NumBlocksKids(_), NumBlocksArgs(_)
+NumBlocksKids(kids) == IF kids = <<>> THEN 0 ELSE NumBlocks(Head(kids)) + NumBlocksKids(Tail(kids))
+NumBlocksArgs(ls) == IF ls = <<>> THEN 0 ELSE NumBlocksKids(Head(ls)) + NumBlocksArgs(Tail(ls))
+NumBlocks(x) ==
+  IF IsStr(x) THEN 0
+  ELSE (IF IsBlock(x) THEN 1 ELSE 0) + NumBlocksKids(x.children) + NumBlocksArgs(x.largs) + NumBlocksArgs(x.defn)
+ListStats(t) == [lists |-> NumKind(t, "LIST"), nested |-> NumNested(t, FALSE), items |-> NumKind(t, "LIST_ITEM"), blocks |-> NumBlocks(t)]
+SeamOf(a, b) ==
+  IF b.lists < a.lists /\ b.items = a.items THEN "lists-merged"
+  ELSE IF b.lists = a.lists /\ b.items = a.items /\ b.nested > a.nested THEN "list-nested"
+  ELSE IF b.lists > a.lists /\ b.items = a.items THEN "list-split"
+  ELSE IF b.blocks # a.blocks THEN "blocks-changed" ELSE ""
+\* node kinds the statement's grammar does not name (the generator's adjacency family holds them
+\* as neighbours; a difference in such a document is DRIFT)
+OutsideKinds == {"PREFORMATTED", "PRE", "MAGIC_WORD"}
+\* a case of the adjacency family carries the tree the generator's block reader gives (field m)
+HasModel(c) == "m" \in DOMAIN c
+
 (* ---- where two trees differ (for the report: the verdict is Equiv alone) ---- *)
 \* First difference of two normalised trees in document order: which node (path of kinds from the
 \* root), what about it (kind / sarg / number of argument lists / attributes / an argument / children /
@@ -117,9 +147,9 @@ Eligible(x) ==
        /\ (IsStr(x.list[1]) => x.list[1].s[1] \notin LineStartSpecial)
 AsKids(x) == IF IsList(x) THEN x.list ELSE <<x>>
 
-VARIABLES i, j, bad, drift, subbad, subdrift, nsub
-vars == <<i, j, bad, drift, subbad, subdrift, nsub>>
-Init == i = 1 /\ j = 1 /\ bad = <<>> /\ drift = <<>> /\ subbad = <<>> /\ subdrift = <<>> /\ nsub = 0
+VARIABLES i, j, bad, drift, subbad, subdrift, nsub, mdrift
+vars == <<i, j, bad, drift, subbad, subdrift, nsub, mdrift>>
+Init == i = 1 /\ j = 1 /\ bad = <<>> /\ drift = <<>> /\ subbad = <<>> /\ subdrift = <<>> /\ nsub = 0 /\ mdrift = <<>>
 
 StepCase ==
   /\ i <= Len(Cases)
@@ -141,7 +171,11 @@ StepCase ==
                                     links |-> <<NumKind(c.t1, "LINK"), NumKind(c.t2, "LINK"), NumKind(c.t3, "LINK")>>,
                                     devs |-> IF explained THEN devs ELSE {},
                                     diag |-> IF ~e12 THEN Diff(c.t1, c.t2) ELSE Diff(c.t2, c.t3),
+                                    stats |-> <<ListStats(c.t1), ListStats(c.t2), ListStats(c.t3)>>,
+                                    seam |-> IF ~e12 THEN SeamOf(ListStats(c.t1), ListStats(c.t2)) ELSE SeamOf(ListStats(c.t2), ListStats(c.t3)),
+                                    outside |-> KindsIn(c.t1) \cap OutsideKinds # {},
                                     ideal |-> ideal1])
+        /\ mdrift' = IF HasModel(c) /\ ~Equiv(c.t1, c.m) THEN Append(mdrift, [i |-> i, diag |-> Diff(c.m, c.t1)]) ELSE mdrift
         /\ drift' = IF (c.w1 = u1 \/ EmitterExplains(c.t1, c.w1)) /\ (c.w2 = u2 \/ EmitterExplains(c.t2, c.w2)) THEN drift
                     ELSE Append(drift, [i |-> i, which |-> IF c.w1 = u1 THEN 2 ELSE 1,
                                         model |-> IF c.w1 = u1 THEN u2 ELSE u1])
@@ -157,16 +191,19 @@ StepSub ==
          devs == {d \in EmitDevs : Unparse(c.x, {d}) # Unparse(c.x, {})} \cup CallDev(c.x, Root(AsKids(c.x)))
      IN /\ subbad' = IF ~el \/ ok THEN subbad
                      ELSE Append(subbad, [j |-> j, devs |-> IF c.w = u THEN devs ELSE {},
-                                          diag |-> Diff(Root(AsKids(c.x)), c.t)])
+                                          diag |-> Diff(Root(AsKids(c.x)), c.t),
+                                          stats |-> <<ListStats(Root(AsKids(c.x))), ListStats(c.t)>>,
+                                          seam |-> SeamOf(ListStats(Root(AsKids(c.x))), ListStats(c.t)),
+                                          outside |-> KindsInKids(AsKids(c.x)) \cap OutsideKinds # {}])
         /\ subdrift' = IF c.w = u \/ EmitterExplains(c.x, c.w) THEN subdrift ELSE Append(subdrift, [j |-> j, model |-> u])
         /\ nsub' = IF el THEN nsub + 1 ELSE nsub
   /\ j' = j + 1
-  /\ UNCHANGED <<i, bad, drift>>
+  /\ UNCHANGED <<i, bad, drift, mdrift>>
 
 Next == StepCase \/ StepSub
 Spec == Init /\ [][Next]_vars
 
 Done == i = Len(Cases) + 1 /\ j = Len(Subs) + 1
 Verdict == Done => PrintT(<<"VERDICT", ToJson([cases |-> i - 1, subs |-> j - 1, eligible |-> nsub, bad |-> bad,
-                                               drift |-> drift, subbad |-> subbad, subdrift |-> subdrift])>>)
+                                               drift |-> drift, subbad |-> subbad, subdrift |-> subdrift, mdrift |-> mdrift])>>)
 =============================================================================
